@@ -1923,6 +1923,8 @@ def translate_all(repo=REPO):
             status[opts.get('lean_name', name)] = 'ok'
         except (Untranslatable, SyntaxError, OSError) as ex:
             status[opts.get('lean_name', name)] = f'untranslatable: {ex}'
+        except Exception as ex:  # noqa  — source of a shape the translator did not foresee: not translated, never a crash
+            status[opts.get('lean_name', name)] = f'untranslatable: (translator: {type(ex).__name__}: {ex})'
     out += ['end Cardutil.Src', '']
     return '\n'.join(out), status
 
